@@ -601,7 +601,19 @@ def correspondence(ctx, cases_in):
     old = rx.OCAML_PRELUDE
     rx.OCAML_PRELUDE = old + OCAML_EXTRA
     try:
-        res = rx.run(ctx, "From PyrexGen Require Import Gen_ice Gen_prop.\nFrom PyrexModel Require Import PropagationModel.", FUNCS, cases, name="prop")
+        # batches keep the generated OCaml compilation units small (long depth-grid literals)
+        res, batch, size = [], [], 0
+        batches = []
+        for c_ in cases:
+            if batch and (len(batch) >= 400 or size + len(c_) > 3_000_000):
+                batches.append(batch)
+                batch, size = [], 0
+            batch.append(c_)
+            size += len(c_)
+        if batch:
+            batches.append(batch)
+        for bi, b_ in enumerate(batches):
+            res += rx.run(ctx, "From PyrexGen Require Import Gen_ice Gen_prop.\nFrom PyrexModel Require Import PropagationModel.", FUNCS, b_, name="prop%d" % bi)
     finally:
         rx.OCAML_PRELUDE = old
     bad = {}
@@ -848,7 +860,7 @@ def run(ctx):
         ctx.extra["translated_functions"] = side["hashes"]
     except Exception as e:
         ctx.oblige("gen:Gen_prop", False, "translation failed (fail-closed): %s" % e)
-        cases = fixed_cases() + tracer_cases(ctx.rng, ctx.n(4, 40))
+        cases = fixed_cases() + tracer_cases(ctx.rng, ctx.n(3, 100))
         probes(ctx, cases)
         return
     ok = ctx.coq_build("C03")
@@ -856,7 +868,7 @@ def run(ctx):
     recorded = json.load(open(PIN_FILE)) if os.path.exists(PIN_FILE) else {}
     changed = [k for k in pins if recorded.get(k) != pins[k]]
     ctx.extra["pins"] = {"current": pins, "changed_since_validation": changed}
-    n_each = ctx.n(3, 40) * (3 if changed else 1)
+    n_each = ctx.n(3, 100) * (3 if changed else 1)
     cases = fixed_cases() + tracer_cases(ctx.rng, n_each)
     import time
     t0 = time.time()
